@@ -2,7 +2,7 @@
    under f1, switched to f2 and resynced through the real ResyncManager; one written under f2 from the
    start) are re-run here on the model with vm_compute and every projected observable is compared.
    Which tree the model describes is selected by Switch.code_fixed / Switch.regen_inval_fixed. *)
-From SG Require Export Base.Prelude Base.Bytes C18.Switch C18.Resync.
+From SG Require Export Base.Prelude Base.Bytes C18.Switch C18.Resync C18.ResyncProofs C18.Run.
 Open Scope N_scope.
 
 (* ---------------------------------------------------------------- the family of sync functions *)
@@ -47,11 +47,28 @@ Record obs_db := mkODB { o_docs : list obs_doc; o_users : list obs_user }.
 Definition W (d : N) (g dg : N) (anc : list rev) (b : cbody) (del : bool) : pop cbody := PWrite (mkW d (g, dg) anc b del).
 Definition L (u : N) : pop cbody := PLoad u.
 
+Inductive tstep :=
+| TW (w : pop cbody)                         (* a write / a user load between or during segments (new functions) *)
+| TObs (o : list obs_doc)                    (* documents after such writes *)
+| TStart (reset regen : bool) (cols : list N)
+| TVisits (visits : list (N * list N))       (* per collection: the documents the run handed to ResyncDocument, in order *)
+          (o : list obs_doc)                 (* documents right after those visits *)
+| TEnd (how : N)                             (* 0 stopped, 1 completed, 2 crash (status and checkpoint documents as saved at Start) *)
+       (changed : N)                         (* docs_changed of the status document afterwards *)
+       (pseqs : list N)                      (* sequences of the principal documents afterwards (roles, then users) *)
+       (pend : list (N * bool * bool))       (* per user: computed channels / computed roles invalidated (raw, before any load) *)
+| TUsers (o : list obs_user).                (* users loaded and observed *)
+
 Inductive case :=
 | CResync (f1 f2 : fdesc) (regen : bool)
           (h1 h2 : list (pop cbody))                   (* writes and user loads under f1 / after the switch, before the resync *)
           (users : list (N * list N * list N)) (roles : list (N * list N))    (* name, admin channels, admin roles *)
-          (before : obs_db) (changed1 : N) (after1 : obs_db) (changed2 : N) (after2 : obs_db) (fresh : obs_db).
+          (before : obs_db) (changed1 : N) (after1 : obs_db) (changed2 : N) (after2 : obs_db) (fresh : obs_db)
+(* the interruptible run (Run.v): a database with [ncols] collections (document id = 100 * collection + n), written under
+   the functions fs1, switched to fs2, then driven through the REAL ResyncManagerDCP segment by segment *)
+| CRun (ncols : N) (fs1 fs2 : list fdesc) (h1 : list (pop cbody))
+       (users : list (N * list N * list N)) (roles : list (N * list N)) (pseq0 : list N)
+       (before : list obs_doc) (steps : list tstep).
 
 (* ---------------------------------------------------------------- comparison *)
 Definition dN := @doc cbody.
@@ -114,6 +131,122 @@ Definition mk_princs (users : list (N * list N * list N)) (roles : list (N * lis
   mkPs (map (fun x => let '(n, ch, rl) := x in mkUser n ch rl None None) users)
        (map (fun x => let '(n, ch) := x in mkRole n ch None) roles).
 
+
+(* ---------------------------------------------------------------- the run model driven by the observed segments *)
+Definition rcol (id : N) : N := id / 100.
+Definition rfun (fs : list fdesc) (c : N) : cbody -> verdict := fam (nth (N.to_nat c) fs (mkF false false false 0 0 0 false 0)).
+Fixpoint upto (n : nat) : list N := match n with O => [] | S k => upto k ++ [N.of_nat k] end.
+Definition rstN := rst cbody.
+
+Definition patch_seqs (os : list obs_doc) (st : rstN) : rstN :=
+  mkR (with_seqs os (r_docs st)) (r_idx st) (r_clock st) (r_state st) (r_cols st) (r_pchanged st) (r_pckpt st) (r_rid st)
+      (r_regen st) (r_hasall st) (r_queue st) (r_last st) (r_changed st) (r_ps st) (r_pseq st) (r_log st) (r_sel st) (r_dirty st) (r_alloc st).
+Definition set_ps (ps : princs) (st : rstN) : rstN :=
+  mkR (r_docs st) (r_idx st) (r_clock st) (r_state st) (r_cols st) (r_pchanged st) (r_pckpt st) (r_rid st)
+      (r_regen st) (r_hasall st) (r_queue st) (r_last st) (r_changed st) ps (r_pseq st) (r_log st) (r_sel st) (r_dirty st) (r_alloc st).
+
+Definition seq_of (os : list obs_doc) (id : N) : N :=
+  match find (fun o => od_id o =? id) os with Some o => od_seq o | None => 0 end.
+Definition mstate_eqb (a b : mstate) : bool :=
+  match a, b with MNone, MNone | MRunning, MRunning | MStopped, MStopped | MCrashed, MCrashed | MCompleted, MCompleted => true | _, _ => false end.
+
+Section Drive.
+  Variable fs2 : list fdesc.
+  Variable allc : list N.
+  Notation stepN := (rstep bempty rcol (rfun fs2) allc switches_now).
+
+  (* the next event of collection c's feed reaches ResyncDocument (tombstones included: the update callback cancels
+     on their empty body): it must be document [id] *)
+  Definition visit_one (st : rstN) (c id s : N) : option rstN :=
+    match qget (r_queue st) c with
+    | [] => None
+    | e :: _ => if e_id e =? id then Some (stepN st (OVisit c s)) else None
+    end.
+  Fixpoint visit_ids (os : list obs_doc) (st : rstN) (c : N) (ids : list N) : option rstN :=
+    match ids with
+    | [] => Some st
+    | id :: r => match visit_one st c id (seq_of os id) with
+                 | Some st' => visit_ids os st' c r
+                 | None => None
+                 end
+    end.
+  Fixpoint visit_cols (os : list obs_doc) (st : rstN) (vs : list (N * list N)) : option rstN :=
+    match vs with
+    | [] => Some st
+    | (c, ids) :: r => match visit_ids os st c ids with Some st' => visit_cols os st' r | None => None end
+    end.
+  (* a run that completed has delivered every event *)
+  Definition drain_cols (st : rstN) (cs : list N) : option rstN :=
+    if forallb (fun c => null (qget (r_queue st) c)) cs then Some st else None.
+
+  Definition pend_match (ps : princs) (p : N * bool * bool) : bool :=
+    let '(n, chp, rlp) := p in
+    match find (fun u => u_name u =? n) (ps_users ps) with
+    | Some u => Bool.eqb (negb (is_some (u_ch u))) chp && Bool.eqb (negb (is_some (u_rl u))) rlp
+    | None => false
+    end.
+
+  (* one observed step; the boolean accumulates the comparison *)
+  Definition drive (acc : rstN * bool) (t : tstep) : rstN * bool :=
+    let (st, ok) := acc in
+    match t with
+    | TW (PWrite w) => (stepN st (OWrite w), ok)
+    | TW (PLoad u) => (stepN st (OLoad u), ok)
+    | TObs o => (patch_seqs o st, ok && docs_match false (r_docs st) o)
+    | TStart reset regen cols =>
+        let st' := stepN st (OStart reset regen cols) in
+        (st', ok && negb (mstate_eqb (r_state st) MRunning) && mstate_eqb (r_state st') MRunning)
+    | TVisits vs o =>
+        match visit_cols o st vs with
+        | Some st' => (st', ok && docs_match true (r_docs st') o && nodupb (r_alloc st'))
+        | None => (st, false)
+        end
+    | TEnd how changed pseqs pend =>
+        let res :=
+          match how with
+          | 1 => match drain_cols st (r_cols st) with
+                 | Some st1 => let st2 := stepN st1 (OFinish pseqs) in
+                               Some (st2, mstate_eqb (r_state st2) MCompleted &&
+                                          (if r_regen st1 && r_hasall st1
+                                           then forallb (fun s => forallb (fun o => o <? s) (r_pseq st1) && forallb (fun d => d_seq d <? s) (r_docs st1)) pseqs
+                                                && nodupb (r_alloc st2)
+                                           else true))
+                 | None => None
+                 end
+          | 0 => Some (stepN st OStop, true)
+          | _ => Some (stepN st (OCrash (r_pckpt st) (r_pchanged st)), true)
+          end in
+        match res with
+        | Some (st', b) =>
+            (st', ok && b && mstate_eqb (r_state st) MRunning && (r_pchanged st' =? changed) &&
+                  list_eqb N.eqb (r_pseq st') pseqs && forallb (pend_match (r_ps st')) pend)
+        | None => (st, false)
+        end
+    | TUsers o =>
+        let ps := warm (r_docs st) (r_ps st) in
+        (set_ps ps st, ok && users_match (r_docs st) ps o)
+    end.
+End Drive.
+
+(* principals as the harness creates them: computed sets stored (NewUser / NewRole), except that SetExplicitRoles
+   invalidates the computed roles of a user that is given admin roles *)
+Definition run_princs (users : list (N * list N * list N)) (roles : list (N * list N)) : princs :=
+  let ps := warm (@nil dN) (mk_princs users roles) in
+  mkPs (map (fun u => if null (u_adm_rl u) then u else mkUser (u_name u) (u_adm_ch u) (u_adm_rl u) (u_ch u) None) (ps_users ps)) (ps_roles ps).
+
+Definition check_run (ncols : N) (fs1 fs2 : list fdesc) (h1 : list (pop cbody))
+    (users : list (N * list N * list N)) (roles : list (N * list N)) (pseq0 : list N) (before : list obs_doc) (steps : list tstep) : bool :=
+  let allc := upto (N.to_nat ncols) in
+  let ps0 := run_princs users roles in
+  (* the database as written under the old functions *)
+  let st0 := fold_left (fun st op => match op with
+                                     | PWrite w => rstep bempty rcol (rfun fs1) allc switches_now st (OWrite w)
+                                     | PLoad u => rstep bempty rcol (rfun fs1) allc switches_now st (OLoad u)
+                                     end) h1 (rinit (@nil dN) ps0 pseq0) in
+  let st1 := patch_seqs before st0 in
+  let '(_, ok) := fold_left (drive fs2 allc) steps (st1, docs_match false (r_docs st0) before) in
+  ok.
+
 Definition check (c : case) : bool :=
   match c with
   | CResync f1 f2 regen h1 h2 users roles before changed1 after1 changed2 after2 fresh =>
@@ -133,9 +266,27 @@ Definition check (c : case) : bool :=
       (n1 =? changed1) && docs_match true rs (o_docs after1) && users_match rs ps2 (o_users after1) &&
       (n2 =? changed2) && docs_match true rs2 (o_docs after2) && users_match rs2 ps3 (o_users after2) &&
       docs_match false fr (o_docs fresh) && users_match fr psf (o_users fresh)
+  | CRun ncols fs1 fs2 h1 users roles pseq0 before steps => check_run ncols fs1 fs2 h1 users roles pseq0 before steps
   end.
 
 Definition mismatches (cs : list case) : list N := failing check cs.
+
+
+(* debugging aid: the accumulated comparison after every step of a CRun case *)
+Definition trace_run (c : case) : list bool :=
+  match c with
+  | CRun ncols fs1 fs2 h1 users roles pseq0 before steps =>
+      let allc := upto (N.to_nat ncols) in
+      let ps0 := run_princs users roles in
+      let st0 := fold_left (fun st op => match op with
+                                         | PWrite w => rstep bempty rcol (rfun fs1) allc switches_now st (OWrite w)
+                                         | PLoad u => rstep bempty rcol (rfun fs1) allc switches_now st (OLoad u)
+                                         end) h1 (rinit (@nil dN) ps0 pseq0) in
+      let st1 := patch_seqs before st0 in
+      docs_match false (r_docs st0) before ::
+      snd (fold_left (fun (a : (rstN * bool) * list bool) t => let r := drive fs2 allc (fst a) t in (r, snd a ++ [snd r])) steps ((st1, true), []))
+  | _ => []
+  end.
 
 (* debugging aid: the conjuncts of [check] one by one *)
 Definition parts (c : case) : list bool :=
@@ -156,4 +307,5 @@ Definition parts (c : case) : list bool :=
        (n1 =? changed1); docs_match true rs (o_docs after1); users_match rs ps2 (o_users after1);
        (n2 =? changed2); docs_match true rs2 (o_docs after2); users_match rs2 ps3 (o_users after2);
        docs_match false fr (o_docs fresh); users_match fr psf (o_users fresh)]
+  | CRun ncols fs1 fs2 h1 users roles pseq0 before steps => [check_run ncols fs1 fs2 h1 users roles pseq0 before steps]
   end.
